@@ -41,8 +41,8 @@ def plan(tier, seed):
     floors = {
         "file disambiguation": 2000 if quick else 200000, "rank disambiguation": 1000 if quick else 100000,
         "file+rank disambiguation": 500 if quick else 50000, "capture-promotion with check": 500 if quick else 50000,
-        "tree with variations": 1000 if quick else 30000, "nested variations (depth>=2)": 300 if quick else 10000,
-        "comments": 1000 if quick else 30000, "$NAG": 500 if quick else 15000, "!?-style suffix": 500 if quick else 15000,
+        "tree with variations": 900 if quick else 30000, "nested variations (depth>=2)": 500 if quick else 15000,
+        "comments": 700 if quick else 25000, "$NAG": 500 if quick else 15000, "!?-style suffix": 500 if quick else 15000,
     }
     for t in FUZZ:
         # DESIGN: at least 5 % of the fuzz inputs must reach the "accepted" branch
